@@ -16,3 +16,6 @@ import G3D.Props.Classes
 #print axioms G3D.Props.Classes.method_form_is_function_form
 #print axioms G3D.Props.Classes.point_not_geobody
 #print axioms G3D.Props.C04.never_raises_admissible
+#print axioms G3D.Props.C04.never_raises_all_of_euler
+#print axioms G3D.Props.C04.polyhedron_polyhedron_raises_only_euler
+#print axioms G3D.Props.C04.never_raises
